@@ -136,30 +136,62 @@ def execute(sc, mutant=None):
 
         nopen = [0]
 
+        def do_open():
+            if cf.link is None:
+                nopen[0] += 1
+                cf.open_link('sim://0/%d' % nopen[0])
+
+        def do_send(k, p):
+            # at most one request per pattern and session (assumption of the property check)
+            if cf.link is None or (dev.session, p) in st.setdefault('sent', set()):
+                return
+            st['sent'].add((dev.session, p))
+            st['nreq'] += 1
+            r = st['nreq']
+            if k != 'send':      # answered at once from the first / from the second copy on
+                st.setdefault('auto', {})[r] = 1 if k == 'sendq' else 2
+            ev.append({'e': 'send', 'req': r, 'sess': dev.session, 'pat': [HDR] + list(PATS[p]),
+                       'tmo': int(round(TMO[p] * 1000))})
+            pk = CRTPPacket()
+            pk.set_header(PORT, 0)
+            pk.data = bytes([r]) + bytes(PATS[p])
+            cf.send_packet(pk, expected_reply=PATS[p], timeout=TMO[p])
+
+        # an application that reconnects from inside the link-error notification (auto-reconnect)
+        # and sends a request at once: the first `recb` notifications do that
+        if sc.get('recb'):
+            left = [len(sc['recb'])]
+
+            def on_link_error(uri, msg):
+                if left[0] > 0:
+                    p = sc['recb'][len(sc['recb']) - left[0]]
+                    left[0] -= 1
+                    st['cb_busy'] = True
+                    try:
+                        do_open()
+                        do_send('send', p)
+                    finally:
+                        st['cb_busy'] = False
+            cf.connection_failed.add_callback(on_link_error)
+            cf.connection_lost.add_callback(on_link_error)
+            cf.disconnected_link_error.add_callback(on_link_error)
+
         def user():
             for op in sc['ops']:
                 k = op[0]
                 s.current().sent_mark = False
+                # The application does not close / open / send while its own link-error handler is
+                # still reconnecting in another thread: a send_packet() call racing with close +
+                # open belongs to whichever session holds the link when it gets the send lock, and
+                # the 'send' event (logged before the call) would name the wrong one.
+                for _ in range(300):
+                    if not st.get('cb_busy'):
+                        break
+                    vtime.sleep(0.001)
                 if k == 'open':
-                    if cf.link is None:
-                        nopen[0] += 1
-                        cf.open_link('sim://0/%d' % nopen[0])
+                    do_open()
                 elif k in ('send', 'sendq', 'sendq2'):
-                    p = op[1]
-                    # at most one request per pattern and session (assumption of the property check)
-                    if cf.link is None or (dev.session, p) in st.setdefault('sent', set()):
-                        continue
-                    st['sent'].add((dev.session, p))
-                    st['nreq'] += 1
-                    r = st['nreq']
-                    if k != 'send':      # answered at once from the first / from the second copy on
-                        st.setdefault('auto', {})[r] = 1 if k == 'sendq' else 2
-                    ev.append({'e': 'send', 'req': r, 'sess': dev.session, 'pat': [HDR] + list(PATS[p]),
-                               'tmo': int(round(TMO[p] * 1000))})
-                    pk = CRTPPacket()
-                    pk.set_header(PORT, 0)
-                    pk.data = bytes([r]) + bytes(PATS[p])
-                    cf.send_packet(pk, expected_reply=PATS[p], timeout=TMO[p])
+                    do_send(k, op[1])
                 elif k == 'close':
                     cf.close_link()
                 elif k == 'lerr':
@@ -216,7 +248,10 @@ def gen_scenario(rng, reliable=False):
         else:
             ops.append(('sleep', 0.0))
     kinds = ['fifo', 'random0', 'pct0', 'random', 'pct']
-    return {'ops': ops, 'reliable': reliable, 'policy': (rng.choice(kinds), rng.randrange(1 << 30))}
+    sc = {'ops': ops, 'reliable': reliable, 'policy': (rng.choice(kinds), rng.randrange(1 << 30))}
+    if rng.random() < 0.25:
+        sc['recb'] = [rng.choice([1, 2, 3]) for _ in range(rng.randint(1, 2))]
+    return sc
 
 
 def systematic():
@@ -256,6 +291,15 @@ def systematic():
                             ('send', p), ('sleep', 1.0)], 'reliable': False, 'policy': ('park', 'cancel')})
         out.append({'ops': [('open',), ('send', p), ('sleep', TMO[p]), ('lerr0',), ('open',), ('send', p), ('sleep', 0.7)],
                     'reliable': False, 'policy': ('park', 'start')})
+    # (d) the application reconnects and sends from inside the link-error notification
+    for how in ('lerr', 'lerr0'):
+        for p in (1, 2, 3):
+            for p0 in (1, 3):
+                out.append({'ops': [('open',), ('send', p0), ('sleep', 0.05), (how,), ('sleep', 1.0)], 'recb': [p],
+                            'reliable': False, 'policy': ('fifo', 0)})
+                out.append({'ops': [('open',), ('send', p0), ('sleep', 0.05), (how,), ('sleep', 0.3), ('inject', PACKETS[1]),
+                                    ('sleep', 0.3), (how,), ('sleep', 0.8)], 'recb': [p, p0],
+                            'reliable': False, 'policy': ('random0', p)})
     # (c) a device that answers at once: the reply is handled while the sending thread is still
     #     inside send_packet (first transmission and retransmission)
     for p in (1, 2, 3):
@@ -369,6 +413,20 @@ def _mut_stale_patterns(cf):
 
 
 MUTANTS['stale_patterns_after_link_error'] = _mut_stale_patterns
+
+
+def _mut_reset_after_callbacks(cf):
+    # the pending patterns are (also) thrown away after the link-error notifications have run:
+    # requests sent by a callback that reconnects are forgotten
+    orig = cf._link_error_cb
+
+    def patched(errmsg):
+        orig(errmsg)
+        cf._answer_patterns = {}
+    cf._link_error_cb = patched
+
+
+MUTANTS['patterns_reset_after_callbacks'] = _mut_reset_after_callbacks
 
 
 def _exec_job(job):
@@ -609,8 +667,10 @@ def main(tier, seed, replay=None):
 
     sub = systematic()[::2] + [gen_scenario(random.Random(seed + 7 + i), reliable=(i % 5 == 0)) for i in range(200)]
     races = [sc for sc in systematic() if sc['policy'][0] == 'park']
+    recbs = [sc for sc in systematic() if sc.get('recb')]
     for name in sorted(MUTANTS):
-        mt = run_scenarios(races if name in ('reread_link', 'reread_patterns', 'register_after_send') else sub, mutant=name)
+        mt = run_scenarios(races if name in ('reread_link', 'reread_patterns', 'register_after_send') else
+                           recbs if name == 'patterns_reset_after_callbacks' else sub, mutant=name)
         for i, t in enumerate(mt):
             t['id'] = i + 1
         o2 = common.Outcome('C10', tier, seed)
